@@ -13099,7 +13099,8 @@ func NewPathAttributeMpReachNLRI(family Family, nlris []PathNLRI, nextHops ...ne
 	case SAFI_FLOW_SPEC_VPN, SAFI_FLOW_SPEC_UNICAST:
 	// Should not have Nexthop
 	case SAFI_MPLS_VPN:
-		l += BGP_ATTR_NHLEN_VPN_RD
+		// one (zero) RD in front of every next hop, as Serialize writes them
+		l += BGP_ATTR_NHLEN_VPN_RD * len(nhs)
 		fallthrough
 	default:
 		l += nhlen
